@@ -23,10 +23,13 @@ def analyze(sched, res):
     walk = dict(kind="dump", leaves=list(all_leaves), pos=0, cd=None, resp=None, initial=True)   # MqttClient::new
     ep = dict(alive=False, sub_t=None, dump_started=False, alive_n=0, sub_n=0, live_since=None)
     seen_connect = False
+    connack_k = None
     for k, st in enumerate(res["steps"]):
         sin = sched["steps"][k]
         if st["update"].get("panic"):
             V.append(("C14", k, "update() panicked"))
+            if st["before"]["state"] == "Multipart":
+                V.append(("C10" if not st["before"]["resp"] else "C07", k, "the pending walk ended in a panic with %d leaves unpublished" % st["before"]["remaining"]))
             break
         b, a, now = st["before"], st["after"], st["now"]
         vals = dict((p, v) for p, v in st["values"])
@@ -151,6 +154,17 @@ def analyze(sched, res):
             walk = dict(kind="dump", leaves=list(all_leaves), pos=0, cd=None, resp=None, initial=True)
             if ep["sub_t"] is None or now < ep["sub_t"] + 2000:
                 V.append(("C13", k, "initial dump started at %d ms, subscription sent at %r" % (now, ep["sub_t"])))
+        # liveness of the start-up sequence: every connection (CONNACK delivered) is followed by the alive message
+        if any(p["topic"] == prefix + "/alive" for p in pubs):
+            connack_k = None
+        if st.get("connack") and st.get("wire_before", True):
+            connack_k = k
+        elif connack_k is not None:
+            if not b["connected"] or not a["connected"] or not b["can_publish"] or sin.get("api") == "reset":
+                connack_k = k if a["connected"] else None      # interrupted / no capacity: start counting again
+            elif k - connack_k >= 5:
+                V.append(("C13", k, "connected at step %d (CONNACK delivered), no alive message %d calls later" % (connack_k, k - connack_k)))
+                connack_k = None
         # liveness of the start-up sequence: once the timeout has passed on a healthy connection the dump starts within two calls
         if ep["sub_t"] is not None and not ep["dump_started"] and now >= ep["sub_t"] + 2000 and b["connected"] and a["connected"] and b["can_publish"]:
             ep["live_since"] = ep["live_since"] if ep["live_since"] is not None else k
@@ -280,7 +294,7 @@ def run_mqtt_prop(chk, prop):
                     states[st["before"]["state"]] = states.get(st["before"]["state"], 0) + 1
                 if st.get("handled") is not None:
                     hsteps += 1
-            if i in r["mism"]:
+            if i in r["mism"] and not s.get("known"):
                 diffs, v = r["mism"][i]
                 k = diffs[0]
                 exp = M.impl_step_obs(res["steps"][k]) if k < len(res["steps"]) else None
@@ -289,7 +303,10 @@ def run_mqtt_prop(chk, prop):
                     mism_in.append((i, k, exp, got))
             for (p, k, why) in analyze(s, res):
                 if p == prop:
-                    found.append((i, k, why))
+                    cls = "none"
+                    if s.get("known") and ("panic" in why) and _unacked(res, k) >= 10:
+                        cls = s["known"]
+                    found.append((i, k, why, cls))
     chk.cov["rule"] = ("schedules of update() calls on the real client over an in-memory broker: " + RULES[prop] +
                        "; counted: update() calls compared step by step with the model; distinct = distinct schedules; non-trivial = every schedule connects and runs the start-up sequence at least once")
     chk.cov["schedules"] = len(r["scheds"])
@@ -308,13 +325,13 @@ def run_mqtt_prop(chk, prop):
     kf = dict(known_findings(prop))
     fresh = []
     for f in found:
-        key = "%s" % f[2][:60]
+        key = f[3]
         if key in kf:
             chk.known(key, kf[key])
         else:
             fresh.append(f)
     if fresh:
-        i, k, why = min(fresh, key=lambda f: (f[1], len(r["scheds"][f[0]]["steps"])))
+        i, k, why = min(fresh, key=lambda f: (f[1], len(r["scheds"][f[0]]["steps"])))[:3]
         s = dict(r["scheds"][i])
         s["steps"] = s["steps"][:k + 1]
         chk.violation(dict(property=prop, kind="failing-input", schedule=s, failing_step=k, property_requires=why,
@@ -326,6 +343,19 @@ def run_mqtt_prop(chk, prop):
         chk.violation(dict(property=prop, kind="no-failing-input-found", stage_a_failures=a["failures"], tie=tie,
                            correspondence="%s channel of the MQTT correspondence (harness/rs-mqtt vs coq/Mqtt.v via Mqtt_tie.v, table from translator/gen.py)" % prop,
                            first_disagreements=first), False)
+
+
+def _unacked(res, k):
+    """QoS1 publications the client has sent on the current connection that the broker has not acknowledged (it never
+    acknowledges in these schedules once `ack` is off): what minimq has to track"""
+    n = 0
+    for st in res["steps"][:k + 1]:
+        for p in st.get("packets", []):
+            if p["t"] == "connect":
+                n = 0
+            elif p["t"] == "pub" and p.get("qos", 0) > 0 and not p["dup"]:
+                n += 1
+    return n
 
 
 def _short(o, n=1500):
